@@ -299,6 +299,11 @@ impl ExtendedDataSquare {
         if ods_width * ods_width != ods_shares.len() {
             return Err(Error::EdsInvalidDimentions);
         }
+        // an empty ODS cannot be extended; without this the zero sized
+        // chunking below panics instead of reporting an error
+        if ods_width == 0 {
+            return Err(Error::EdsInvalidDimentions);
+        }
 
         let eds_width = ods_width * 2;
         let mut eds_shares = Vec::with_capacity(eds_width * eds_width);
